@@ -77,7 +77,7 @@ def units(tier):
                 run = run_op(ip, ctx, op, v, ("ge", 12), 0 if op.name in QUERIES else ("ge", 0))
                 ctx._run = run
                 base = f"{PROP}/{op.name}" + (f"/v{v}" if op.variants > 1 else "")
-                obs = binding_obligations(ip, ctx, base, run, op.kind)
+                obs = binding_obligations(ip, ctx, base, run, getattr(op, "login_kind", op.kind))
                 acc = op.accepted(ip, ctx, run["info"])
                 if ctx.entails(z3.BoolVal(acc) if isinstance(acc, bool) else acc) and op.name not in QUERIES:
                     obs.append(Obligation(base + "/two_frames", ctx, len(run["writes"]) == 2))
@@ -127,7 +127,7 @@ def replay_case(o):
     op = ops().get(name[1])
     if op is None:
         return None
-    return {"prop": PROP, "kind": "op_check", "op": op.name, "api": op.kind, "inputs": i}
+    return {"prop": PROP, "kind": "op_check", "op": op.method, "api": op.kind, "inputs": i}
 
 
 def search_cases(o, seed):
